@@ -801,6 +801,11 @@ class StrCell:
     def truncated(self, width):
         """the first `width` characters (fixed-width store); only the widths that occur are modelled"""
         if width >= STR_K + STR_TAIL + 1: return self
+        if width <= STR_K:
+            w = z3.BitVecVal(width, 8)
+            return StrCell(z3.If(z3.ULT(self.n, w), self.n, w),
+                           [self.ch[j] if j < width else z3.BitVecVal(0, 21) for j in range(STR_K)],
+                           z3.BoolVal(False), z3.BitVecVal(0, 21), z3.BoolVal(False))
         if width == STR_TAIL and STR_K <= STR_TAIL:
             long = self.tail            # K + 50 (+1) characters -> K + 48
             return StrCell(self.n, self.ch, z3.And(self.tail, z3.BoolVal(False)), z3.BitVecVal(0, 21), z3.Or(self.cut, long))
